@@ -32,13 +32,16 @@ func matrix(r *ev.Run) {
 	idx := 0
 	for _, noUp := range []bool{false, true} {
 		for _, op := range ops {
-			for _, second := range []string{"", "remove:hw1", "remove-all"} {
+			for si, second := range []string{"", "remove:hw1", "remove-all", "", "add-hard-cert:hw1-again"} {
+				// in the last two variants the first hardware certificate's key is held by the underlying agent only as
+				// part of a key+certificate identity (the plain key was removed directly before the lock)
+				keyOnlyInCert := si >= 3
 				c := r.Case("matrix", idx)
 				idx++
 				if c == nil {
 					continue
 				}
-				rec := map[string]any{"no_upstream": noUp, "operation_while_locked": op, "second_operation_while_locked": second}
+				rec := map[string]any{"no_upstream": noUp, "operation_while_locked": op, "second_operation_while_locked": second, "first_hardware_key_only_inside_a_certificate_identity": keyOnlyInCert}
 				r.Eval(1)
 				r.Guard(c, "locked-operation matrix", rec, func() {
 					ag := wire.New()
@@ -101,6 +104,10 @@ func matrix(r *ev.Run) {
 						sort.Strings(v.signers)
 						sort.Strings(v.under)
 						return v, nil
+					}
+					if keyOnlyInCert {
+						ag.Keyring.Add(agent.AddedKey{PrivateKey: k1.Priv, Certificate: mk(k1, "someone@example over key one"), Comment: "key one, certified"})
+						ag.Keyring.Remove(k1.Pub)
 					}
 					before, err := look()
 					if err != nil {
@@ -207,6 +214,9 @@ func matrix(r *ev.Run) {
 						if noUp && name == "ucert" {
 							continue
 						}
+						if keyOnlyInCert && name == "hw1" {
+							continue // its plain key is not an identity of the underlying agent any more
+						}
 						sig, err := s.Sign(pk, []byte("after unlock"))
 						if err != nil || pk.Verify([]byte("after unlock"), sig) != nil {
 							r.Violation(c, "identity-unusable-after-unlock:"+name, fmt.Sprintf("after %s while locked: err=%v", op, err), rec)
@@ -214,7 +224,7 @@ func matrix(r *ev.Run) {
 						}
 					}
 					r.Count("matrix cases: locked operation refused, views identical after unlock", 1)
-					r.Nontrivial(fmt.Sprintf("matrix:%v:%s:%s", noUp, op, second))
+					r.Nontrivial(fmt.Sprintf("matrix:%v:%s:%s:%v", noUp, op, second, keyOnlyInCert))
 				})
 			}
 		}
